@@ -1350,8 +1350,14 @@ def tables_back(tree, ref_globals, imported=None, ref_shapes=None):
                             # (a literal in place counts when the reference function has no loop over that literal)
                             in_ref = it is st.iter and (ref_shapes is None or any(
                                 x.startswith('For ') and ast.unparse(it) in x for x in (ref_shapes.get(qual) or {}).get('skel', ['For ' + ast.unparse(it)])))
+                            # (a loop that only fills an accumulator is a comprehension written out: left to loops_to_comprehensions)
+                            core_ = st.body[0].body if len(st.body) == 1 and isinstance(st.body[0], ast.If) and not st.body[0].orelse else st.body
+                            fills = len(core_) == 1 and (
+                                (isinstance(core_[0], ast.Expr) and isinstance(core_[0].value, ast.Call) and isinstance(core_[0].value.func, ast.Attribute)
+                                 and core_[0].value.func.attr in ('append', 'add')) or
+                                (isinstance(core_[0], ast.Assign) and len(core_[0].targets) == 1 and isinstance(core_[0].targets[0], ast.Subscript)))
                             if isinstance(it, (ast.Tuple, ast.List)) and 1 <= len(it.elts) <= 4 and all(isinstance(e, ast.Constant) for e in it.elts) \
-                                    and not in_ref \
+                                    and not in_ref and not (fills and it is st.iter) \
                                     and not any(isinstance(y, (ast.Break, ast.Continue)) for x in st.body for y in ast.walk(x)) \
                                     and not any(isinstance(y, ast.Name) and y.id == st.target.id and isinstance(y.ctx, ast.Store) for x in st.body for y in ast.walk(x)):
                                 new = []
